@@ -665,10 +665,10 @@ pub fn run(ctx: &mut Ctx) {
 	ctx.rule = "acyclic POM universes: 2-6 libraries in 1-2 versions each (dependencies only to higher-numbered libraries, any version -> version conflicts at different depths), 0-2 parent POMs (chains) and 0-2 BOMs (imports of further BOMs); POMs inherit group/version/dependencies/management, managed entries precede imports, dependencies omit versions only where the effective management has them, every scope, optional flags, classifier and type variants (natives, test-jar, ejb, maven-plugin, explicit jar, war: same or different artifact identity), 1-3 repositories each serving a subset; rendered to POM XML and served by an in-memory Downloader; 1-3 root dependencies with scopes. Oracle: a reference resolver written from Maven's documentation (effective POM, optional / non-transitive scope cut, scope table, breadth-first nearest-wins with declaration order, losers' subtrees discarded, first serving repository) must give exactly the same list (coordinate, scope, repository); Display/parse round trips of every result and of generated coordinates. Non-trivial = a version conflict resolved by depth or by declaration order, a managed fill-in, or a scope changed by the table; distinct by case hash".into();
 	ctx.assume("supported subset only: literal versions, no exclusions/profiles/ranges; managed entries before imports; a child neither re-declares nor manages a dependency its parent chain declares");
 	ctx.assume("real Maven is not available offline: the oracle is the harness's reading of the dependency-mechanism documentation");
-	ctx.run_sub("resolution", ctx.tier.pick(20000, 1000000), strategy, check);
+	ctx.run_sub("resolution", ctx.tier.pick(60000, 1000000), strategy, check);
 	ctx.run_sub(
 		"coordinate_roundtrip",
-		ctx.tier.pick(40000, 2000000),
+		ctx.tier.pick(120000, 2000000),
 		|| ("[a-z][a-z0-9.]{0,12}", "[a-z][a-z0-9_-]{0,12}", "[0-9][0-9A-Za-z.-]{0,10}", proptest::option::of("[a-z0-9]{0,8}"), prop_oneof![Just("jar".to_string()), Just("pom".to_string()), "[a-z-]{1,8}"], 0u8..5, "[a-z]{3,6}://[a-z0-9./-]{1,20}").prop_map(|(group, artifact, version, classifier, type_, scope, url)| CoordCase { group, artifact, version, classifier, type_, scope, url }),
 		coord_roundtrip,
 	);
